@@ -565,6 +565,8 @@ func (e *eng) Exec(op []string) string {
 		return "member=" + common.B2s(member) + " " + m.pu()
 	case "racejoin":
 		return e.racejoin(a(1), a(2), a(3))
+	case "histsnap":
+		return e.histsnap(a(1), a(2))
 	case "p9":
 		return e.p9(op, fin)
 	case "whipdl":
@@ -793,6 +795,10 @@ func gen(t *common.Trace, e common.Engine, r *common.Rng, thorough bool) {
 	e.Reset()
 	for _, mx := range []int{1, 2, 3} {
 		common.Do(t, e, fmt.Sprintf("racejoin %d %d %d", 6, mx, 60000))
+	}
+	// a history snapshot handed out must be a copy (C13/C15)
+	for _, hn := range [][2]int{{10, 5}, {49, 3}, {50, 1}, {50, 60}, {75, 10}} {
+		common.Do(t, e, fmt.Sprintf("histsnap %d %d", hn[0], hn[1]))
 	}
 	ge := e.(*eng)
 	ge.Reset()
